@@ -137,7 +137,7 @@ def explain(sq, wantk, sts, errs, cname, text):
 
 def check(ctx):
     C.extract(ctx)
-    C.prove(ctx, ["Oq3.Props.C16", "Oq3.Props.C16Reloc"])
+    C.prove(ctx, ["Oq3.Props.C16", "Oq3.Props.C16Reloc", "Oq3.Props.C16Lang"])
     okb, log = C.cargo_build()
     if not okb:
         C.violation(ctx, "harness-build-failed", {"log": log[-3000:]}, no_input=True)
